@@ -104,6 +104,16 @@ def configure(G, ex, st, ctx, case):
         ex.store(st, Ptr(impl, t1 + T['counter'][0]), 4, c1)
         ex.store(st, Ptr(impl, t1 + T['start_low'][0]), 2, s1)
         ex.store(st, Ptr(impl, t1 + T['start_high'][0]), 2, 0)
+    if case.get('btdmp'):
+        # audio port 0 transmitting: period and FIFO fill from the case (16 words = full flag set); the skip horizon is capped
+        # by the next frame, frames are popped by Tick or by Skip depending on the slicing
+        per, fill = case['btdmp']
+        B = L['Btdmp']
+        bb = G.off['btdmp']
+        for j in range(fill):
+            ex.call(st, '@ti_btdmp_push', [ctx['impl'], 0, 0x100 + j])
+        for f, v_ in (('transmit_enable', 1), ('transmit_period', per), ('transmit_timer', 0), ('transmit_empty', 0 if fill else 1), ('transmit_full', 1 if fill == 16 else 0)):
+            ex.store(st, Ptr(impl, bb + B[f][0]), B[f][1], v_)
     off, sz, c_, stride = L['ICU']['enabled']
     if case.get('vectored'):
         # IRQ 0xA delivered as a vectored interrupt to the handler at VECV (no context switch); core line 0 not enabled
@@ -159,6 +169,9 @@ def observe(G, ex, st, ctx):
             if f != '_size' and sz <= 8:
                 out['timer%d.%s' % (t, f)] = ex.load(st, Ptr(impl, G.off['timer'] + t * L['Timer']['_size'][0] + off), sz)
     out['icu.request'] = ex.load(st, Ptr(impl, G.off['icu'] + L['ICU']['request'][0]), 8)
+    for f in ('transmit_timer', 'transmit_empty', 'transmit_full', 'transmit_enable', 'transmit_period'):
+        out['timer.btdmp0.' + f] = ex.load(st, Ptr(impl, G.off['btdmp'] + L['Btdmp'][f][0]), L['Btdmp'][f][1])
+    out['timer.btdmp0.queue_size'] = ex.call(st.fork(), '@ti_btdmp_qsize', [ctx['impl'], 0])[1]
     out['stack'] = st.mem[ctx['mem']].arr
     return out
 
@@ -186,6 +199,7 @@ def latency_window(case, slices):
     timers = [{'mode': case['mode'], 'counter': cell(case['counter']), 'start': cell(case['start']), 'routed': True}]
     if case.get('t1'):
         timers.append({'mode': 1, 'counter': case['t1'][0], 'start': case['t1'][1], 'routed': False})
+    bt = {'timer': 0, 'period': case['btdmp'][0], 'q': case['btdmp'][1]} if case.get('btdmp') else None
 
     def tick():
         fired = False
@@ -199,6 +213,11 @@ def latency_window(case, slices):
                 t['counter'] -= 1
                 if t['counter'] == 0 and t['routed']:
                     fired = True
+        if bt:
+            bt['timer'] += 1
+            if bt['timer'] >= bt['period']:
+                bt['timer'] = 0
+                bt['q'] = max(0, bt['q'] - 2)
         return fired
 
     def horizon():
@@ -209,6 +228,8 @@ def latency_window(case, slices):
             else:
                 m = t['counter'] - 1
             h = min(h, m)
+        if bt and bt['q'] > 0:
+            h = min(h, bt['period'] - bt['timer'] - 1 + ((bt['q'] + 1) // 2 - 1) * bt['period'])
         return h
 
     def skip(k):
@@ -222,6 +243,9 @@ def latency_window(case, slices):
                     t['counter'] = 0xFFFFFFFF - (k - 1)
             else:
                 t['counter'] -= k
+        if bt:
+            bt['q'] = max(0, bt['q'] - 2 * ((bt['timer'] + k) // bt['period']))
+            bt['timer'] = (bt['timer'] + k) % bt['period']
     cpu, ie, ip, latch = 'loop', case['ie'], 0, False
     window = False
     for k in slices:
@@ -275,7 +299,7 @@ def job_case(case, tier, seed):
         ck.inconclusive.append('case %r: %s' % (case, str(x)[:150]))
         return ck.export()
     ck.nstates += 1
-    label = ('vectored ' if case.get('vectored') else '') + ('t1=%d/%d ' % case['t1'] if case.get('t1') else '') + 'mode %d counter %s start %s ie %d' % (case['mode'], case['counter'] if case['counter'] <= case['nmax'] else '>%d' % case['nmax'], case['start'] if case['start'] <= case['nmax'] else '>%d' % case['nmax'], case['ie'])
+    label = ('btdmp=%d/%d ' % case['btdmp'] if case.get('btdmp') else '') + ('vectored ' if case.get('vectored') else '') + ('t1=%d/%d ' % case['t1'] if case.get('t1') else '') + 'mode %d counter %s start %s ie %d' % (case['mode'], case['counter'] if case['counter'] <= case['nmax'] else '>%d' % case['nmax'], case['start'] if case['start'] <= case['nmax'] else '>%d' % case['nmax'], case['ie'])
     comps = [c for c in compositions(n) if len(c) > 1]
     if tier == 'quick':
         comps = [c for c in comps if c in ([1] * n, [1, n - 1], [n - 1, 1], [2] * (n // 2) + ([1] if n % 2 else []))]
@@ -371,6 +395,14 @@ def replayer(case, comp, part=None):
                     wr(t, 0x206, 1 << 0xA)
                 # timer: mode, MU, then load the counter by a restart when it equals start, else poke directly
                 tw.fn('ti_timer_poke', None, [ctypes.c_void_p, ctypes.c_uint16, ctypes.c_uint32])(t, case['mode'], cnt)
+                if case.get('btdmp'):
+                    per, fill = case['btdmp']
+                    for j in range(fill):
+                        tw.fn('ti_btdmp_push', None, [ctypes.c_void_p, ctypes.c_uint, ctypes.c_uint16])(t, 0, 0x100 + j)
+                    GL = kit.layout()['Btdmp']
+                    bbase = t + graph.get().off['btdmp']
+                    for f, v_ in (('transmit_enable', 1), ('transmit_period', per), ('transmit_timer', 0), ('transmit_empty', 0 if fill else 1), ('transmit_full', 1 if fill == 16 else 0)):
+                        native.poke(bbase, GL, f, v_)
                 if case.get('t1'):
                     tw.fn('ti_timer1_poke', None, [ctypes.c_void_p, ctypes.c_uint16, ctypes.c_uint32, ctypes.c_uint16])(t, 1, case['t1'][0], case['t1'][1])
                 native.poke(regs, RL, 'pc', LOOP_AT)
@@ -386,7 +418,7 @@ def replayer(case, comp, part=None):
                 for k in slices:
                     run(t, k)
                 res.append({'pc': native.peek(regs, RL, 'pc'), 'a0': native.peek(regs, RL, 'a', 0), 'ie': native.peek(regs, RL, 'ie'), 'sp': native.peek(regs, RL, 'sp'),
-                            'timer0.counter': tw.fn('ti_timer_counter', ctypes.c_uint32, [ctypes.c_void_p])(t), 'timer1.counter': tw.fn('ti_timer1_counter', ctypes.c_uint32, [ctypes.c_void_p])(t), 'icu.pending': tw.fn('ti_mmio_read', ctypes.c_uint16, [ctypes.c_void_p, ctypes.c_uint16])(t, 0x200)})
+                            'timer0.counter': tw.fn('ti_timer_counter', ctypes.c_uint32, [ctypes.c_void_p])(t), 'timer1.counter': tw.fn('ti_timer1_counter', ctypes.c_uint32, [ctypes.c_void_p])(t), 'timer.btdmp0.queue_size': tw.fn('ti_btdmp_qsize', ctypes.c_uint64, [ctypes.c_void_p, ctypes.c_uint])(t, 0), 'timer.btdmp0.status': tw.fn('ti_mmio_read', ctypes.c_uint16, [ctypes.c_void_p, ctypes.c_uint16])(t, 0x2C2), 'icu.pending': tw.fn('ti_mmio_read', ctypes.c_uint16, [ctypes.c_void_p, ctypes.c_uint16])(t, 0x200)})
             return res
         o = native.in_child(body, timeout=240)
         if o[0] == 'signal':
@@ -457,7 +489,7 @@ def run(tier, seed):
     ck.funcs.update(['Processor::Run / Interpreter::Run (idle fast-forward, latch sampling, fetch, dispatch, interrupt block, CoreTiming::Tick)', 'CoreTiming::Tick / Skip (real std::vector of callbacks, virtual calls)',
                      'Timer::Tick/Skip/GetMaxSkip/Restart/UpdateMMIO', 'Btdmp::Tick/Skip/GetMaxSkip', 'ICU::TriggerSingle/Trigger', 'Processor::SignalInterrupt', 'brr', 'moda4 (inc)', 'reti', 'PushPC/PopPC',
                      'MemoryInterface::ProgramRead/DataRead/DataWrite, SharedMemory'])
-    ck.assumptions += ['program: idle self-branch (brr -1) at 0x100, line-0 handler at 0x0006 = inc a0 ; reti; timer 0 -> IRQ 0xA routed to core line 0 and unmasked (7 extra cases: delivered as a vectored interrupt to a handler at 0x0200 instead); timer 1 paused - or, in 16 extra cases, auto-restarting with period 1..3 and not routed, so that a second component caps the skip horizon - and audio ports disabled (their skip lemmas are C15/C16, composed by CoreTiming.Skip)',
+    ck.assumptions += ['program: idle self-branch (brr -1) at 0x100, line-0 handler at 0x0006 = inc a0 ; reti; timer 0 -> IRQ 0xA routed to core line 0 and unmasked (7 extra cases: delivered as a vectored interrupt to a handler at 0x0200 instead); timer 1 paused - or, in 16 extra cases, auto-restarting with period 1..3 and not routed, so that a second component caps the skip horizon - and audio ports disabled - or, in 8 extra cases, port 0 transmitting with period 2/3 and a full or partly filled FIFO (the skip lemmas of C15/C16 composed by CoreTiming.Skip cover the general case)',
                        'timer counter and start value: partitioned into {0},...,{n+1},{> n+1} - every 32-bit value lies in exactly one cell, the last cell is a symbolic remainder; count modes single / auto-restart / free-running enumerated; global interrupt enable 0/1; accumulator and flags symbolic',
                        'excluded as the property says: a self-branch that is the last instruction of an active block repeat or the target of rep',
                        'unbounded idle skips: by the skip lemmas of C15/C16 plus CoreTiming.Skip (paper induction)']
@@ -476,6 +508,10 @@ def run(tier, seed):
         cases.append({'n': nv, 'nmax': nv + 1, 'mode': mode, 'counter': c, 'start': s_, 'ie': 1, 'vectored': True})
         if nv != n:
             cases.append({'n': nv, 'nmax': nv + 1, 'mode': mode, 'counter': c, 'start': s_, 'ie': 1})      # the same on core line 0
+    # audio port 0 active (period 2 / 3, FIFO full or partly filled) next to timer 0
+    for per, fill in ((2, 16), (3, 16), (2, 4), (3, 1)):
+        for mode, c, s_ in ((0, nmax + 1, nmax + 1), (0, 3, nmax + 1)):
+            cases.append({'n': n, 'nmax': nmax, 'mode': mode, 'counter': c, 'start': s_, 'ie': 1, 'btdmp': (per, fill)})
     # two active timing components: timer 1 auto-restarting (unrouted) under a few of the timer-0 cases
     for mode, c, s_ in ((0, nmax + 1, nmax + 1), (0, 3, nmax + 1), (1, 2, 3), (2, 0, nmax + 1)):
         for t1 in ((1, 2), (2, 1), (3, 3), (0, 2)):
